@@ -88,6 +88,15 @@ func symList(s *val.Syms, l []string) string {
 	return "[" + strings.Join(out, "; ") + "]"
 }
 
+// coqNamed: the operation with the uuid-name of an insert, if any
+func (o TOp) coqNamed(s *val.Syms) string {
+	nm := "None"
+	if o.Kind == "insert" && o.Name != "" {
+		nm = fmt.Sprintf("(Some %d%%N)", s.ID(o.Name))
+	}
+	return "(" + o.coq(s) + ", " + nm + ")"
+}
+
 func (o TOp) coq(s *val.Syms) string {
 	t := s.ID(o.Table)
 	switch o.Kind {
